@@ -376,9 +376,11 @@ class _Unknown(Exception):
 
 
 def _eval_decision(facts, proc, e, flt, df, cache):
-    from ..absint import k3 as K3
-    from ..absint.ctx import ref_to
-    from ..absint.domain import BoolV, EnumV, IntV, StructV, TupleV, VecV
+    """value (bool / int) of the decision expression tree for one -f list and one DF.  Arithmetic is done here; every call -
+    crate function, closure, std method - is evaluated by E2 on the constant arguments (results cached per list)."""
+    from ..absint.ctx import new_interp, ref_to
+    from ..absint.domain import INT_TYPES, BoolV, ClosureV, EnumV, FnV, IntV, RefV, StructV, TupleV, VecV
+    from ..absint.interp import Diverge, State, _structured_const
     from ..absint.k2 import args_value
 
     def args_struct():
@@ -394,14 +396,68 @@ def _eval_decision(facts, proc, e, flt, df, cache):
             return v.val
         return v
 
+    def to_e2(v, ty="u32"):
+        if isinstance(v, bool):
+            return BoolV(v)
+        if isinstance(v, int):
+            ty = ty.lstrip("&").replace("mut ", "")
+            return IntV.const(ty if ty in INT_TYPES else "u32", v)
+        return v
+
+    def run_call(name, vals):
+        def kr(v):
+            if isinstance(v, ClosureV):
+                return "closure %s [%s]" % (v.body, ", ".join(kr(c) for c in v.captures))
+            if isinstance(v, TupleV):
+                return "(%s)" % ", ".join(kr(c) for c in v.items)
+            return repr(v)
+        key = (name, repr([kr(v) for v in vals]), repr(flt))
+        if key in cache:
+            return cache[key]
+        I = new_interp(facts)
+        I.ctx_label = "R16.1 decision"
+        st = State()
+        try:
+            cb = facts.bodies.get(name)
+            if cb is not None and cb.kind == "closure":
+                env = vals[0]
+                rest = vals[1].items if isinstance(vals[1], TupleV) else list(vals[1:])
+                st, rv = I.call_value(st, env, [to_e2(x) for x in rest])
+            elif cb is not None:
+                args = []
+                for i, v in enumerate(vals):
+                    ty = cb.locals[i + 1]["ty"]["s"]
+                    v = to_e2(v, ty)
+                    args.append(ref_to(I, st, v) if (ty.startswith("&") and not isinstance(v, RefV)) else v)
+                st, rv = I.run_body(st, cb, args)
+            else:
+                st, rv = I.call_value(st, FnV(name), [to_e2(x) for x in vals])
+            if isinstance(rv, RefV):
+                rv = I.get_path(st, rv.cell, rv.proj)
+        except Diverge:
+            raise _Unknown("%s panics on these arguments" % name)
+        if any(w[0] == "unmodelled" for w in I.warnings):
+            raise _Unknown("%s: %s" % (name, [w[1] for w in I.warnings if w[0] == "unmodelled"][:2]))
+        cache[key] = to_py(rv)
+        return cache[key]
+
     def ev(x):
         if df_of_line(x):
             return df
         k = x[0]
         if k == "const":
-            return x[1]
+            v = x[1]
+            if isinstance(v, str):
+                raise _Unknown("opaque constant %s" % v[:40])
+            if isinstance(v, tuple) and v and v[0] == "__value__":
+                import json
+                sv = _structured_const(json.loads(v[1]))
+                if sv is None:
+                    raise _Unknown("constant")
+                return to_py(sv)
+            return v
         if k == "arg":
-            path = tuple(x[2])
+            path = tuple(p_ for p_ in x[2] if p_ != "deref")
             ty = proc.locals[x[1]]["ty"]["s"] if isinstance(x[1], int) and x[1] < len(proc.locals) else ""
             if ty.rstrip(">").endswith("::Args") or ty.endswith("Args"):
                 if not path:
@@ -409,6 +465,20 @@ def _eval_decision(facts, proc, e, flt, df, cache):
                 if path[-1:] == ("filter",):
                     return args_struct().fields["filter"]
             raise _Unknown("parameter %s" % show(x)[:60])
+        if k == "agg":
+            comps = [ev(c) for c in x[2]]
+            if x[1] == "closure" and len(x) > 3:
+                return ClosureV(x[3], [to_e2(c) for c in comps])
+            if x[1] == "tuple":
+                return TupleV([to_e2(c) for c in comps])
+            if x[1] == "array":
+                return VecV([to_e2(c) for c in comps])
+            if x[1] == "adt" and len(x) > 5:
+                info = facts.adts.get(x[3])
+                if x[3] in ("std::option::Option", "std::result::Result") or (info and info["kind"] == "enum"):
+                    return EnumV(x[3], {str(x[5]): (tuple(to_e2(c) for c in comps), {})})
+                return StructV(x[3], {n: to_e2(c) for n, c in zip(x[4], comps)})
+            raise _Unknown("aggregate %s" % x[1])
         if k == "bin":
             l, r = ev(x[2]), ev(x[3])
             if isinstance(l, bool) and isinstance(r, bool):
@@ -418,18 +488,17 @@ def _eval_decision(facts, proc, e, flt, df, cache):
             op = x[1].replace("WithOverflow", "")
             if op in ("Shl", "Shr") and not (0 <= r < 128):
                 raise _Unknown("shift amount")
+            if op in ("Div", "Rem") and r == 0:
+                raise _Unknown("division by zero")
             return {"Add": lambda: l + r, "Sub": lambda: l - r, "Mul": lambda: l * r, "BitAnd": lambda: l & r, "BitOr": lambda: l | r,
                     "BitXor": lambda: l ^ r, "Shl": lambda: l << r, "Shr": lambda: l >> r, "Eq": lambda: l == r, "Ne": lambda: l != r,
                     "Lt": lambda: l < r, "Le": lambda: l <= r, "Gt": lambda: l > r, "Ge": lambda: l >= r,
-                    "Div": lambda: l // r if r else (_ for _ in ()).throw(_Unknown("division by zero")),
-                    "Rem": lambda: l % r if r else (_ for _ in ()).throw(_Unknown("division by zero"))}[op]()
+                    "Div": lambda: l // r, "Rem": lambda: l % r}[op]()
         if k == "un":
             v = ev(x[2])
-            if x[1] == "Not":
-                if isinstance(v, bool):
-                    return not v
-                raise _Unknown("bitwise not")
-            if x[1] == "Neg" and isinstance(v, int):
+            if x[1] == "Not" and isinstance(v, bool):
+                return not v
+            if x[1] == "Neg" and isinstance(v, int) and not isinstance(v, bool):
                 return -v
             raise _Unknown("unary %s" % x[1])
         if k == "cast":
@@ -437,11 +506,10 @@ def _eval_decision(facts, proc, e, flt, df, cache):
             if isinstance(v, bool):
                 return int(v)
             if isinstance(v, int):
-                from ..absint.domain import INT_TYPES
                 if x[3] in INT_TYPES and not INT_TYPES[x[3]][1]:
                     return v & ((1 << INT_TYPES[x[3]][0]) - 1)
                 return v
-            raise _Unknown("cast")
+            return v        # pointer / unsize coercions
         if k == "discr":
             v = ev(x[1])
             if isinstance(v, EnumV) and len(v.variants) == 1:
@@ -449,47 +517,28 @@ def _eval_decision(facts, proc, e, flt, df, cache):
             raise _Unknown("discriminant")
         if k == "path":
             v = ev(x[1])
-            for st in x[2]:
-                if isinstance(v, TupleV) and isinstance(st, int):
-                    v = v.items[st]
-                elif isinstance(v, StructV):
-                    v = v.fields.get(st)
+            for st_ in x[2]:
+                if st_ == "deref":
+                    continue
+                if isinstance(st_, str) and st_.startswith("as:") and isinstance(v, EnumV) and v.only(st_[3:]):
+                    v = TupleV(list(v.variants[st_[3:]][0]))
+                elif isinstance(v, TupleV) and isinstance(st_, int) and st_ < len(v.items):
+                    v = v.items[st_]
+                elif isinstance(v, StructV) and st_ in v.fields:
+                    v = v.fields[st_]
                 else:
-                    raise _Unknown("projection %s" % (st,))
+                    raise _Unknown("projection %s" % (st_,))
             return to_py(v)
         if k == "call":
-            name = x[1]
-            if name in facts.bodies:
-                cb = facts.bodies[name]
-                vals = [ev(a) for a in x[2]]
-                key = (name, repr([repr(v) for v in vals]), repr(flt))
-                if key not in cache:
-                    def build(I, st, vals=vals, cb=cb):
-                        out = []
-                        for i, v in enumerate(vals):
-                            ty = cb.locals[i + 1]["ty"]["s"]
-                            if isinstance(v, bool):
-                                v = BoolV(v)
-                            elif isinstance(v, int):
-                                v = IntV.const(ty.lstrip("&"), v)
-                            out.append(ref_to(I, st, v) if ty.startswith("&") else v)
-                        return out
-                    I, rv, st = K3.run_fn(facts, name, build, "R16.1 decision %s" % name.split("::")[-1])
-                    cache[key] = to_py(rv) if rv is not None else None
-                r = cache[key]
-                if r is None or not isinstance(r, (int, bool, EnumV, TupleV, StructV)):
-                    raise _Unknown("%s did not evaluate to a constant (%r)" % (name, r))
-                return r
-            short = name.split("::")[-1]
-            if short in ("deref", "as_ref", "clone", "borrow", "into", "from") and len(x[2]) == 1:
-                return ev(x[2][0])
-            raise _Unknown("call %s" % name)
+            vals = [ev(a) for a in x[2]]
+            r = run_call(x[1], vals)
+            if r is None or not isinstance(r, (int, bool, EnumV, TupleV, StructV, VecV)):
+                raise _Unknown("%s did not evaluate to a constant (%r)" % (x[1], r))
+            return r
         raise _Unknown("node %s" % k)
 
     v = ev(e)
-    if isinstance(v, bool):
-        return v
-    if isinstance(v, int):
+    if isinstance(v, (bool, int)):
         return v
     raise _Unknown("decision value %r" % (v,))
 
